@@ -2182,7 +2182,7 @@ def handle_sel(chk, prog):
 # ------------------------------------------------------------------------------------------------
 # extension 5: detectors below the loss layer (LossSimulator._prepare_detectors_impl + simulate_detectors)
 
-def gen_det_case(rng, chk):
+def gen_det_case(rng, chk, i=None):
     prog = gen_sel_case(rng, chk)
     M = prog["m"] if prog["mode"] == "processor" else max(r0 + width(c) for r0, c in prog["comps"])
     sel = prog["sel"]
@@ -2190,6 +2190,8 @@ def gen_det_case(rng, chk):
         sel["heralds"] = []
         prog["inputs"] = [s for s in prog["inputs"]]
     kind = rng.random()
+    if i is not None and i % 8 < 2:          # every required kind of list occurs in every run
+        kind = 0.0 if i % 8 == 0 else 0.2
     dets = []
     for i in range(M):
         if kind < 0.12:                      # PNR list: simulate_detectors hands the distribution back
@@ -2200,6 +2202,14 @@ def gen_det_case(rng, chk):
             dets.append(rng.choice(["none", "pnr", "thr", "thr", {"ppnr": [2, None]}, {"ppnr": [3, None]},
                                     {"ppnr": [3, 2]}, {"ppnr": [4, 3]}]))
     prog["dets"] = dets
+    if i is not None and i % 8 == 1:         # threshold detectors meet a bunched input in every run
+        s = list(prog["inputs"][0])
+        j = max(range(M), key=lambda q: s[q])
+        if s[j] < 2:
+            if sum(s) + 2 - s[j] > 4:        # keep the driver's permanents small: at most 4 photons
+                s = [0] * M
+            s[j] = 2
+        prog["inputs"][0] = s
     # photons where they meet a detector: at least one input with 2+ photons in total
     if all(sum(s) < 2 for s in prog["inputs"]):
         s = list(prog["inputs"][0])
@@ -2448,6 +2458,221 @@ def handle_det(chk, prog):
 
 
 
+# ------------------------------------------------------------------------------------------------
+# extension 5: a noisy source TOGETHER with heralds / post-selection / filter on the loss layer
+
+def gen_msel_case(rng, chk, i=None):
+    prog = gen_sel_case(rng, chk)
+    while i is not None and (prog["mode"] == "list") != (i % 2 == 0):
+        prog = gen_sel_case(rng, chk)
+    M = prog["m"] if prog["mode"] == "processor" else max(r0 + width(c) for r0, c in prog["comps"])
+    sel = prog["sel"]
+    if prog["mode"] == "processor":
+        prog["noise"] = list(rng.choice([x for x in SRC_PARAMS if tuple(x) != ("1", "1")]))
+        prog["inputs"] = prog["inputs"][:1]
+        prog["src"] = None
+    else:
+        # an explicit source distribution: 2-4 distinct Fock inputs, dyadic weights summing to one
+        k = rng.randint(2, 4)
+        states = [list(s) for s in prog["inputs"]]
+        tries = 0
+        while len(states) < k and tries < 30:
+            tries += 1
+            s = [0] * M
+            for _ in range(rng.choice([0, 1, 1, 2, 2, 3])):
+                s[rng.randrange(M)] += 1
+            if s not in states:
+                states.append(s)
+        if i is not None and i % 4 == 0:       # the inner filter drops some inputs of the mixture, not all
+            sel["minDet"] = max(1, sel["minDet"])
+            if all(sum(s) >= sel["minDet"] for s in states):
+                states.append([0] * M)
+            if all(sum(s) < sel["minDet"] for s in states):
+                s = [0] * M
+                s[rng.randrange(M)] = sel["minDet"]
+                states.append(s)
+        cuts = sorted(rng.sample(range(1, 16), len(states) - 1)) if len(states) > 1 else []
+        ws = [b - a for a, b in zip([0] + cuts, cuts + [16])]
+        prog["src"] = [[core.rat(Fraction(w, 16)), s] for w, s in zip(ws, states)]
+        prog["inputs"] = []
+    return prog
+
+
+def observe_msel(prog):
+    import perceval as pcvl
+    from perceval.simulators import SimulatorFactory
+    sel = prog["sel"]
+    hv = {int(a): int(b) for a, b in sel["heralds"]}
+    objs, mats = [], []
+    try:
+        for r0, spec in prog["comps"]:
+            objs.append(build_comp(spec))
+        mats = snapshot_mats(prog["comps"], objs)
+        if prog["mode"] == "processor":
+            b, t = (float(Fraction(x)) for x in prog["noise"])
+            p = pcvl.Processor(prog["backend"], prog["m"], noise=pcvl.NoiseModel(brightness=b, transmittance=t))
+            for (r0, spec), obj in zip(prog["comps"], objs):
+                p.add(r0, obj)
+            for i, v in hv.items():
+                p.add_herald(i, v)
+            if sel["ps_src"]:
+                p.set_postselection(pcvl.PostSelect(sel["ps_src"]))
+            p.min_detected_photons_filter(sel["minDet"])
+            s = prog["inputs"][0]
+            p.with_input(pcvl.BasicState([x for i, x in enumerate(s) if i not in hv]))
+            src = []
+            for sv, w in p.source_distribution.items():
+                comps = [(tuple(int(x) for x in st), complex(a)) for st, a in sv]
+                if len(comps) != 1 or any(st.has_annotations for st, _ in sv):
+                    return {"err": "SourceShape", "msg": f"unexpected source state {sv}", "mats": mats}
+                src.append([float(w), list(comps[0][0])])
+            res = p.probs(precision=0)
+            via = f"Processor(noise {prog['noise']}).probs on {s}"
+        else:
+            lst = [(tuple(range(r0, r0 + obj.m)), obj) for (r0, spec), obj in zip(prog["comps"], objs)]
+            sim = SimulatorFactory.build(lst, prog["backend"])
+            sim.set_precision(0)
+            sim.set_selection(min_detected_photons_filter=sel["minDet"],
+                              postselect=pcvl.PostSelect(sel["ps_src"]) if sel["ps_src"] else None, heralds=hv)
+            sim.keep_heralds(sel["keep"])
+            src = [[float(Fraction(w)), list(s)] for w, s in prog["src"]]
+            svd = pcvl.SVDistribution({pcvl.StateVector(pcvl.BasicState(s)): w for w, s in src})
+            res = sim.probs_svd(svd)
+            via = f"build(list).probs_svd on the source distribution {prog['src']}"
+        run = {"via": via, "results": bsd_to_dict(res["results"]),
+               "physical_perf": float(res["physical_perf"]), "logical_perf": float(res["logical_perf"])}
+        return {"run": run, "src": src, "mats": mats}
+    except Exception as e:
+        if is_repo_error(e):
+            return {"err": type(e).__name__, "msg": str(e)[:200], "mats": mats}
+        raise
+
+
+def judge_msel(chk, prog):
+    obs = observe_msel(prog)
+    sel = prog["sel"]
+    if obs.get("err") == "SourceShape":
+        return None
+    req = None
+    try:
+        req = lean_request(dict(prog, inputs=[]), obs["mats"] + [None] * (len(prog["comps"]) - len(obs["mats"])))
+    except Exception:
+        pass
+    if req is None:
+        return None
+    del req["inputs"]
+    src = obs.get("src") or [[float(Fraction(w)), s] for w, s in (prog["src"] or [])]
+    req.update({"op": "mixsel", "src": [[core.rat(Fraction(*float(w).as_integer_ratio())), s] for w, s in src],
+                "sel": {"heralds": sel["heralds"], "ps": sel["ps"], "minDet": sel["minDet"], "keep": sel["keep"]}})
+    rep = chk.lean.ask(req)
+    if "err" in obs:
+        if "err" in rep:
+            return None
+        return ("violation", "noisy-selection-rejects-admissible-program",
+                f"the real API raised {obs['err']} ({obs.get('msg')}) on a lossy program with a noisy source and a "
+                "selection the model accepts")
+    if "err" in rep:
+        return ("broken", "noisy-selection-model-rejects", f"the model rejects ({rep['err']}) what the real API accepted")
+    M = rep["M"]
+    run = obs["run"]
+    if abs(float(Fraction(rep["mass"]) - 1)) > 1e-9 or abs(float(Fraction(rep["weights"]) - 1)) > 1e-9:
+        return ("broken", "enlarged-mass", f"the model's mixture has mass {rep['mass']} (weights {rep['weights']})")
+    mphys, mlog = Fraction(rep["physical"]), Fraction(rep["logical"])
+    sp, sret = Fraction(rep["specPhysical"]), Fraction(rep["retained"])
+    if sp > Fraction(1, 10**6):
+        # `loss_noisy_selection_is_conditioning` on the wire
+        bad = abs(float(mphys - sp)) > 1e-9 or abs(float(mphys * mlog - sret)) > 1e-9
+        if not bad and sret > Fraction(1, 10**6):
+            bad = bool(dist_close({tuple(k): float(Fraction(v)) for k, v in rep["results"]},
+                                  {tuple(k): Fraction(v) for k, v in rep["spec"]}, 1e-9))
+        if bad:
+            return ("broken", "noisy-selection-model-vs-spec",
+                    "the code-shaped model (inputs dropped by the inner filter, successive normalisations) and the "
+                    "specification (one conditioning of the mixture of the marginals) differ")
+    mret = mphys * mlog
+    mj = {tuple(k): Fraction(v) * mret for k, v in rep["results"]}
+    probs = compare_sel(run, mj, mphys, mret, TOL)
+    hkeys = M if sel["keep"] else M - len(sel["heralds"])
+    if any(len(k) != hkeys for k in run["results"]):
+        return ("violation", "selection-output-shape",
+                f"{run['via']} returned states that are not on the {hkeys} reported modes")
+    if not probs:
+        return None
+    umat = oracle_matrix(prog, obs["mats"])
+    od = {}
+    for w, st in src:
+        for k, v in oracle_dist(*umat, st).items():
+            od[k] = od.get(k, 0.0) + w * v
+    joint, phys, ret = sel_spec(od, sel, M)
+    oprobs = compare_sel(run, joint, phys, ret, 1e-7)
+    what = (f"{run['via']} with heralds {sel['heralds']}, post-selection {sel['ps_src']!r}, "
+            f"min_detected_photons {sel['minDet']}, keep_heralds {sel['keep']}")
+    if "dist" in oprobs or "norm" in oprobs:
+        return ("violation", "noisy-loss-selection-differs",
+                f"{what}: the reported distribution is not the mixture over the source's inputs of the enlarged "
+                f"lossless circuit's distributions on the original modes conditioned on the selection ({oprobs})")
+    if "perf" in oprobs or "lperf" in oprobs:
+        return ("violation", "noisy-loss-selection-perf",
+                f"{what}: physical_perf {run['physical_perf']!r} / logical_perf {run['logical_perf']!r}, the "
+                f"property gives {phys!r} / {(ret / phys if phys else None)!r}")
+    return ("broken", "noisy-selection-model-vs-code", f"Lean model and {what} disagree ({probs}) but the numpy oracle "
+                                                       "agrees with the implementation")
+
+
+def handle_msel(chk, prog):
+    sel = prog["sel"]
+    chk.branch("noisy-selection-via-" + prog["mode"])
+    if sel["heralds"]:
+        chk.branch("noisy-selection-heralds")
+    if sel["ps_src"]:
+        chk.branch("noisy-selection-postselect")
+    if prog["mode"] == "list" and sel["minDet"] and any(sum(s) < sel["minDet"] for _, s in prog["src"]) \
+            and any(sum(s) >= sel["minDet"] for _, s in prog["src"]):
+        chk.branch("noisy-selection-inner-filter-drops-some-inputs")
+    res = judge_msel(chk, prog)
+    chk.case(("msel",) + signature(prog) + (json.dumps([sel, prog.get("noise"), prog["src"], prog["inputs"]],
+                                                       sort_keys=True),),
+             nontrivial=bool(sel["heralds"] or sel["ps_src"] or sel["minDet"]),
+             sample={"sel": {k: sel[k] for k in ("heralds", "ps_src", "minDet", "keep")}, "mode": prog["mode"],
+                     "noise": prog.get("noise"), "src": prog["src"],
+                     "comps": [(r0, c["t"]) for r0, c in prog["comps"]][:8]})
+    if res is not None:
+        kind, sig, what = res
+
+        def fails(p):
+            try:
+                r = judge_msel(chk, p)
+            except core.LeanError:
+                raise
+            except Exception:
+                return False
+            return r is not None and r[1] == sig
+        cur = copy.deepcopy(prog)
+
+        def f2(cs):
+            if not any(sp["t"] == "LC" for _, sp in cs):
+                return False
+            if cur["mode"] == "list" and max(r0 + width(sp) for r0, sp in cs) != len(cur["src"][0][1]):
+                return False
+            return fails(dict(cur, comps=cs))
+        cur["comps"] = gens.shrink_list(cur["comps"], f2, max_rounds=40)
+        for cand_sel in (dict(cur["sel"], ps=True, ps_src=None), dict(cur["sel"], minDet=0),
+                         dict(cur["sel"], keep=False)):
+            cand = dict(cur, sel=cand_sel)
+            if cand_sel != cur["sel"] and fails(cand):
+                cur = cand
+        try:
+            again = judge_msel(chk, cur)
+            if again is not None and again[1] == sig:
+                what = again[2]
+        except core.LeanError:
+            raise
+        except Exception:
+            pass
+        chk.fail(kind, sig, what, {"msel": cur})
+
+
+
 def load_corpus():
     out = []
     if os.environ.get("VERIF_C07_NO_CORPUS"):      # development aid: what does the generator find on its own?
@@ -2505,7 +2730,7 @@ def run(chk: core.Check):
                 "set_postselection/min_detected_photons_filter/probs: joint probabilities, physical_perf, logical_perf, "
                 "key shapes and normalisation against the model of _postprocess_bsd, the model against the "
                 "specification (exactly when the enlarged matrix is exactly unitary), disagreements classified by "
-                "numpy permanents conditioned in Python. Detector cases (45 / 450): the same lossy programs with one "
+                "numpy permanents conditioned in Python. Detector cases (24 / 450): the same lossy programs with one "
                 "detector per original mode from None / Detector.pnr / Detector.threshold / Detector.ppnr(2-4 wires, "
                 "max_detections None/2/3) (12% all-PNR lists, 12% all-threshold lists), heralds (list entry point), "
                 "post-selection, min_detected_photons 0-3, at least one input with two or more photons, through "
@@ -2513,7 +2738,14 @@ def run(chk: core.Check):
                 "results, physical_perf, logical_perf, key shapes against the model of _prepare_detectors_impl + "
                 "simulate_detectors + _postprocess_bsd, the model against the specification (detectors on the marginal, "
                 "one conditioning) and the commutation theorem on the wire; oracle: numpy permanents, marginal, detectors "
-                "and conditioning in Python")
+                "and conditioning in Python. Noisy-source-with-selection cases (12 / 300): half through "
+                "SimulatorFactory.build(list).probs_svd on an explicit source distribution (2-5 Fock inputs, dyadic "
+                "weights; every fourth case has inputs below and above min_detected_photons so that the inner simulator "
+                "drops some of them) with set_selection(heralds 0-3 photons, post-selection, filter)/keep_heralds, half "
+                "through Processor(noise=NoiseModel(brightness, transmittance)) with add_herald/set_postselection/"
+                "min_detected_photons_filter (the real source distribution is read from the Processor): results, "
+                "physical_perf, logical_perf against the model of the inner drop + _postprocess_bsd, the model against "
+                "the specification on the wire, oracle: numpy mixture conditioned in Python")
     chk.assumptions = [
         "leaf matrices are taken from each leaf's own compute_unitary() (their correctness is C14)",
         "the strong-simulation backends return the Fock-space probabilities of the matrix they are given (C02)",
@@ -2551,7 +2783,9 @@ def run(chk: core.Check):
                              "detectors-via-processor", "detectors-via-list", "detectors-pnr-list",
                              "detectors-all-threshold-padded-mixed", "detectors-ppnr",
                              "detectors-threshold-bunched-input", "detectors-inner-photon-filter",
-                             "detectors-with-heralds"]
+                             "detectors-with-heralds",
+                             "noisy-selection-via-processor", "noisy-selection-via-list", "noisy-selection-heralds",
+                             "noisy-selection-postselect", "noisy-selection-inner-filter-drops-some-inputs"]
     chk.lean = core.LeanDriver("C07")
     rng = chk.rng
     for item in load_corpus():
@@ -2581,8 +2815,10 @@ def run(chk: core.Check):
         handle_thin(chk, gen_thin_case(rng, chk))
     for i in range(chk.pick(110, 1100)):
         handle_sel(chk, gen_sel_case(rng, chk))
-    for i in range(chk.pick(45, 450)):
-        handle_det(chk, gen_det_case(rng, chk))
+    for i in range(chk.pick(24, 450)):
+        handle_det(chk, gen_det_case(rng, chk, i))
+    for i in range(chk.pick(12, 300)):
+        handle_msel(chk, gen_msel_case(rng, chk, i))
 
 
 def guarded(chk, what, replay, fn, *args):
@@ -2624,6 +2860,8 @@ def replay_item(chk, item):
         handle_sel(chk, item["sel"])
     elif "det" in item:
         handle_det(chk, item["det"])
+    elif "msel" in item:
+        handle_msel(chk, item["msel"])
     else:
         handle_thinning(chk)
 
